@@ -136,7 +136,9 @@ func st(m map[string]interface{}) *structpb.Struct {
 // populate builds the fixed populated graph.
 func populate(addV func(*gripql.Vertex), addE func(*gripql.Edge)) {
 	for i := 0; i < 6; i++ {
-		data := map[string]interface{}{"k": float64(i % 3), "s": fmt.Sprint("s", i%2), "l": []interface{}{float64(i), "a"}, "a": map[string]interface{}{"k": float64(i)}}
+		// m: magnitudes far apart (an aggregation or comparison over it spans 1e17 and more)
+		data := map[string]interface{}{"k": float64(i % 3), "s": fmt.Sprint("s", i%2), "l": []interface{}{float64(i), "a"}, "a": map[string]interface{}{"k": float64(i)},
+			"m": []float64{-1e17, 5, 1e17, 0.5}[i%4]}
 		if i == 4 {
 			data = map[string]interface{}{"k": "text", "b": true}
 		}
